@@ -71,3 +71,67 @@ fn k_exe_2_disable_guard() {
     vcover!();
     std::mem::forget(local);
 }
+
+// ---- the three places where the fixpoint iteration counter is advanced: a refused increment must panic ----
+/// the iteration `complete_cycle_query` (stub) was handed
+pub(crate) static mut CCQ_ITER: Option<IterationStamp> = None;
+pub(crate) fn stub_complete_cycle_query(_zalsa: &Zalsa, active_query: ActiveQueryGuard<'_>, iteration: IterationStamp) -> CompletedQuery {
+    // SAFETY: single-threaded harness
+    unsafe { CCQ_ITER = Some(iteration) };
+    std::mem::forget(active_query);
+    CompletedQuery { revisions: crate::zalsa_local::verif::revs(Durability::LOW, Revision::start(), false, crate::zalsa_local::verif::empty_derived()), stale_tracked_structs: Vec::new() }
+}
+fn participant_world(iter: u8, epoch: u8) -> (Zalsa, crate::zalsa_local::ZalsaLocal, IterationStamp) {
+    (crate::zalsa::verif::bare_zalsa(), crate::zalsa_local::ZalsaLocal::new(), crate::cycle::verif::stamp(iter, epoch))
+}
+
+//@ob id=K-EXE-3 kind=C props=C15 timeout=900 fn=complete_cycle_participant flags=stubs,noreplay
+//@ pre: a query completes as a participant of an outer cycle at any iteration 0..=199 of any cancellation epoch (`complete_cycle_query`, which flattens dependencies through a thread-local pool, is stubbed)
+//@ post: the memo is produced for iteration + 1 of the same epoch (never beyond 200) and is provisional
+#[cfg(kani)]
+#[kani::proof]
+#[kani::unwind(4)]
+#[kani::stub(crate::function::execute::complete_cycle_query, stub_complete_cycle_query)]
+fn k_exe_3_participant_advances_the_counter() {
+    let (i, e): (u8, u8) = (kani::any(), kani::any());
+    kani::assume(i < 200);
+    let (z, l, it) = participant_world(i, e);
+    let me = vk::key(2, 1);
+    let outer = vk::key(2, 9);
+    let frame = l.push_query(me);
+    let mut guard = crate::function::sync::verif::fake_guard(&z, &l, me.ingredient_index(), me.key_index());
+    let cq = complete_cycle_participant(frame, &mut guard, CycleHeads::initial(outer, it), outer, it);
+    // SAFETY: single-threaded harness
+    let seen = unsafe { CCQ_ITER }.unwrap();
+    assert!(seen.iteration() == i + 1 && seen.iteration() <= 200 && seen.cancellation_count() == e);
+    assert!(!cq.revisions.verified_final.load(std::sync::atomic::Ordering::Relaxed));
+    kani::cover!(i == 199, "last permitted increment");
+    kani::cover!(true, "end-of-harness reachable");
+    std::mem::forget(cq);
+    std::mem::forget(guard);
+    std::mem::forget(l);
+    std::mem::forget(z);
+}
+
+//@ob id=K-EXE-3p kind=C props=C15 timeout=900 fn=complete_cycle_participant flags=stubs,noreplay,should_panic
+//@ pre: as K-EXE-3 but at iteration 200 (the bound of the property text), any cancellation epoch
+//@ post: panics with "too many cycle iterations" as the only failure - the counter is never advanced past the bound and no memo is produced
+//@ panic: too many cycle iterations
+#[cfg(kani)]
+#[kani::proof]
+#[kani::unwind(4)]
+#[kani::should_panic]
+#[kani::stub(crate::function::execute::complete_cycle_query, stub_complete_cycle_query)]
+fn k_exe_3p_participant_panics_at_the_bound() {
+    let e: u8 = kani::any();
+    let (z, l, it) = participant_world(200, e);
+    let me = vk::key(2, 1);
+    let outer = vk::key(2, 9);
+    let frame = l.push_query(me);
+    let mut guard = crate::function::sync::verif::fake_guard(&z, &l, me.ingredient_index(), me.key_index());
+    let cq = complete_cycle_participant(frame, &mut guard, CycleHeads::initial(outer, it), outer, it);
+    std::mem::forget(cq);
+    std::mem::forget(guard);
+    std::mem::forget(l);
+    std::mem::forget(z);
+}
